@@ -211,7 +211,9 @@ def vc_graph_derived(H):
         me = sym('self', attrs={'algebra': sym('algebra', attrs={'canon2bin': c2b})})
         r = H.closure(Interp(ctx, source_name=GR), fk)(me)
         ok = isinstance(r, CompSeq) and r.kind == 'dict'
-        ctx.oblige('key2idx is a dict built over the canonical key sequence', bool(ok))
+        if not ok:
+            raise OutOfSubset('get_key2idx: not one dict comprehension over the canonical key sequence (contract does not apply)')
+        ctx.oblige('key2idx is a dict built over the canonical key sequence', True)
         if ok:
             i = SInt(z3.Int('i'))
             ctx.assume(z3.And(i.t >= 0, i.t < n.t))
@@ -269,7 +271,9 @@ def vc_graph_refresh(H):
         r = H.closure(Interp(ctx, source_name=GR), fg, {'encode': enc, 'walker': wal})(me)
         ok = (isinstance(r, Rec) and r.kind == 'call' and r.parts[0] is wal and len(r.parts[1]) == 1 and isinstance(r.parts[1][0], Rec)
               and r.parts[1][0].kind == 'call' and r.parts[1][0].parts[0] is enc)
-        ctx.oblige('get_subjects returns walker(encode(.., root=True))', bool(ok), meta={'got': repr(r)[:200]})
+        if not ok:
+            raise OutOfSubset('get_subjects: the result is not walker(encode(..)) (contract does not apply)')
+        ctx.oblige('get_subjects returns walker(encode(.., root=True))', True)
         if ok:
             e = r.parts[1][0]
             ctx.oblige('get_subjects encodes the result of a new evaluation of the subjects (self._get_pre_subjects() called now), as the root',
@@ -550,9 +554,9 @@ def vc_codegen_sqrt(H):
                     ctx.oblige('only(C13,C19): sqrt of a scalar: text evaluates to sqrt(x.e)', abs(v - 3.0) < 1e-12, meta={'text': r[0]})
                 return r
             ok = isinstance(r, tuple) and r[0] == 'LambdifyInput'
-            ctx.oblige('returns a LambdifyInput', bool(ok))
             if not ok:
-                return r
+                raise OutOfSubset('codegen_sqrt: the result is not a LambdifyInput (contract does not apply)')
+            ctx.oblige('returns a LambdifyInput', True)
             kw = r[1]
             bI = state.get('bI')
             ctx.oblige('only(C08,C19): bI is the whole non-scalar part: x - x.grade(0)', bI is not None and bI.tree == ('binop', 'Sub', 'x', 'x.grade(0)'))
